@@ -10,3 +10,7 @@ import IppModel.Props.C02
 #print axioms Ipp.Props.C02.nest_depth
 #print axioms Ipp.Props.C02.depth_unbounded
 #print axioms Ipp.Props.C02.nest_size
+#print axioms Ipp.Props.C02.depth_linear
+#print axioms Ipp.Props.C02.depth_sum_linear
+#print axioms Ipp.Props.C02.depth_linear_blocking
+#print axioms Ipp.Props.C02.depth_linear_async
